@@ -3,6 +3,7 @@
 U1 swapped arguments: a call passes two variables that carry the names of two of the callee's parameters, crossed.
 U3 ignored argument: a function never reads one of its parameters although a call site passes an explicit value for it.
 U4 option overwrite: isoquant.py assigns a declared command-line option only under a test that reads that same option.
+U5 preset wiring: args.<option> = strategy.<field> copies the field of its own name.
 U2 option/enum confusion: an option that is converted with Enum[args.x] (so it holds the member NAME, a str) is compared with an
    Enum member - the comparison is constantly False / True.
 """
@@ -46,6 +47,7 @@ def run(prog, ctx, pid):
     u3(prog, ctx, files)
     if "isoquant.py" in files:
         u4(prog, ctx)
+        u5(prog, ctx)
     if not hits:
         ctx.ok("U1", "anchor modules", "no crossed same-named arguments in calls in/into %d anchor-module functions" % n, nontrivial=False)
 
@@ -248,3 +250,34 @@ def u4(prog, ctx):
     ctx.ok("U4", "isoquant.py", "%d assignments to declared options, all guarded by a test of the same option or in the confirmed table" % n,
            nontrivial=False)
     ctx.floor("U4", "assignments to declared options", n, 12)
+
+
+# option <- preset field pairs whose names differ, confirmed by reading (isoquant.py)
+WIRING_OK = {("report_novel_unspliced", "novel_monoexonic"), ("report_canonical_strategy", "report_canonical")}
+
+
+def u5(prog, ctx):
+    """Preset wiring by name: `args.<option> = strategy.<field>` copies the field of the same name (a prefix verb such as correct_ aside),
+    and no field is wired to two options of one function."""
+    ctx.rule("U5", "in isoquant.py every `args.<option> = <preset record>.<field>` has option == field, option == 'correct_' + field, or is one of "
+                   "the two confirmed differently named pairs; no preset field feeds two options in one function")
+    m = prog.module("isoquant.py")
+    n = 0
+    for q, f in sorted(m.functions.items()):
+        used = {}
+        for st in walk_no_nested(f):
+            if not (isinstance(st, ast.Assign) and len(st.targets) == 1 and isinstance(st.value, ast.Attribute) and isinstance(st.value.value, ast.Name)):
+                continue
+            t = dotted(st.targets[0]) or ""
+            if not t.startswith("args.") or st.value.value.id not in ("strategy", "preset"):
+                continue
+            n += 1
+            opt, fld = t[5:], st.value.attr
+            if not (opt == fld or opt == "correct_" + fld or (opt, fld) in WIRING_OK):
+                ctx.fail("U5", st, q, src(st), "the option %s is set from the preset field %s (its siblings copy the field that carries their own name): the "
+                         "run behaves as if another preset column had been chosen" % (opt, fld))
+            if fld in used and used[fld] != opt:
+                ctx.fail("U5", st, q, src(st), "preset field %s is wired to two options (%s and %s)" % (fld, used[fld], opt))
+            used[fld] = opt
+    ctx.ok("U5", "isoquant.py", "%d option <- preset-field assignments, all wired to the field of their own name" % n, nontrivial=False)
+    ctx.floor("U5", "option <- preset field assignments", n, 12)
